@@ -83,6 +83,10 @@ Definition pred_key (k : N) : N :=
 
 (* rx_any: a big message was returned whose identifier we could not recover (its
    connection was lost before the payload was read): acknowledgements cannot be judged *)
+(* the Persistence content when call i began *)
+Definition store_before_call (t : list tev) (i : N) : list (N * list N) :=
+  fold_left obs_store_step (filter (fun e => ev_call e <? i) t) [].
+
 Record rx := mkRx { rx_owe1 : list N; rx_owe2 : list N; rx_any : bool }.
 
 Definition rx_step (t : list tev) (s : rx) (m : list (N * list N)) (e : tev) : rx * bool :=
@@ -90,10 +94,11 @@ Definition rx_step (t : list tev) (s : rx) (m : list (N * list N)) (e : tev) : r
   | TRet i OpRead r _ _ _ =>
     let written := packets_in_call t i in
     (* every PUBACK / PUBREC written in this call was owed before the call, or (PUBREC) answers the
-       retransmission of a message whose marker is in the Persistence; PUBCOMP after the marker left *)
+       retransmission of a message whose marker was in the Persistence when the call began (the
+       flush itself saves the marker just before it writes); PUBCOMP after the marker left *)
     let ok := forallb (fun pm => match fst pm with
                                  | PPuback id => rx_any s || mem id (rx_owe1 s)
-                                 | PPubrec id => rx_any s || mem id (rx_owe2 s) || obs_has (snd pm) (id + 65536)
+                                 | PPubrec id => rx_any s || mem id (rx_owe2 s) || obs_has (store_before_call t i) (id + 65536)
                                  | PPubcomp id => negb (obs_has (snd pm) (id + 65536))
                                  | _ => true end) (packets_in_call_at t i) in
     (* an acknowledgement may be repeated after a failed write: identifiers stay in the sets *)
